@@ -67,13 +67,14 @@ def dates(rng, n):
     base = []
     for tz in tzs:
         base += [datetime.datetime(1000, 1, 1, 0, 0, 0, 0, tz), datetime.datetime(9999, 12, 31, 23, 59, 59, 999999, tz),
+                 datetime.datetime(1, 1, 1, 0, 0, 0, 0, tz), datetime.datetime(999, 12, 31, 23, 59, 59, 999999, tz), datetime.datetime(87, 6, 5, 4, 3, 2, 1, tz),
                  datetime.datetime(2024, 2, 29, 12, 30, 45, 1, tz), datetime.datetime(1970, 1, 1, 0, 0, 0, 0, tz)]
     out = list(base)
     for _ in range(n):
         secs = rng.choice([rng.randint(1, 86399), -rng.randint(1, 86399)])
         tz = rng.choice(tzs + [datetime.timezone(datetime.timedelta(seconds=secs,
                                                                      microseconds=rng.choice([0, 0, rng.randint(0, 999999)])))])
-        out.append(datetime.datetime(rng.randint(1000, 9999), rng.randint(1, 12), rng.randint(1, 28), rng.randint(0, 23),
+        out.append(datetime.datetime(rng.choice([rng.randint(1000, 9999), rng.randint(1000, 9999), rng.randint(1, 999)]), rng.randint(1, 12), rng.randint(1, 28), rng.randint(0, 23),
                                      rng.randint(0, 59), rng.randint(0, 59), rng.choice([0, rng.randint(0, 999999)]), tz))
     return out
 
@@ -127,7 +128,7 @@ def run(ctx):
     values = {'int': ints(rng, n), 'float': floats(rng, n), 'decimal': decimals(rng, n), 'datetime': dates(rng, n),
               'str': strings(rng, n), 'bool': [True, False]}
     ctx.rule = ('every EDataType of pyecore.ecore and pyecore.type whose Python type is str/bool/int/float/Decimal/datetime: '
-                'boundary values (0, +-1, +-2^31, +-2^63, 10^50, min/max/denormal/inf/nan floats, year 1000/9999, offsets up to '
+                'boundary values (0, +-1, +-2^31, +-2^63, 10^50, min/max/denormal/inf/nan floats, years 1/999/1000/9999, offsets up to '
                 f'+-23:59:59.999999, strings over a palette with whitespace, XML specials, non-BMP) + {n} seeded samples per type; '
                 'from_string(to_string(v)) == v with the same type on the real converters; for int/bool/datetime the text and the '
                 'parsed value are also compared with the Lean converters. non-trivial & distinct = distinct (data type, value)')
